@@ -37,3 +37,26 @@ Fixpoint drop_reads (ops : list lop2) : list lop :=
    the backing array is what it was *)
 Definition compact_in_place (keep : ev -> bool) (l : ulist) : ulist :=
   let k := filter keep l in k ++ skipn (length k) l.
+
+(* the property on the observations of a recorder life with readers (no loop, no cache involved):
+   every answer and every saved file is the history recorded so far, in order — across restarts *)
+Fixpoint seg_obs_violates (m : rstate) (seg : list (lop * lobs)) : bool * rstate :=
+  match seg with
+  | [] => (false, m)
+  | (o, ob) :: r =>
+      let m' := match o with
+                | LRec x => match rop_event x with Some _ => rstep m x | None => m end
+                | _ => m
+                end in
+      let bad := match ob with
+                 | LAnswer d | LFile d => negb (dump_matches d m')
+                 | LNone => false
+                 end in
+      let (b, mf) := seg_obs_violates m' r in (bad || b, mf)
+  end.
+Fixpoint reader_obs_violates_from (m : rstate) (segs : list (list (lop * lobs))) : bool :=
+  match segs with
+  | [] => false
+  | seg :: r => let (b, m') := seg_obs_violates m seg in b || reader_obs_violates_from m' r
+  end.
+Definition reader_obs_violates (segs : list (list (lop * lobs))) : bool := reader_obs_violates_from [] segs.
